@@ -197,7 +197,8 @@ def code_for_number_token(name, value, location):"""),
     def description(self):"""),
     ("validated: nested ifs and renamed local", "cutplace/fields.py",
      """        if self.data_format.format == data.FORMAT_FIXED:
-            possibly_stripped_value = value.strip()
+            # NOTE: Only blanks pad a fixed value, other white space such as tabs is part of the value.
+            possibly_stripped_value = value.strip(" ")
         else:
             possibly_stripped_value = value
         if possibly_stripped_value:
@@ -211,7 +212,7 @@ def code_for_number_token(name, value, location):"""),
             result = self.empty_value
         return result""",
      """        is_fixed = self.data_format.format == data.FORMAT_FIXED
-        actual_value = value.strip() if is_fixed else value
+        actual_value = value.strip(" ") if is_fixed else value
         if actual_value:
             self.validate_characters(value)
         self.validate_empty(actual_value)
@@ -466,6 +467,15 @@ BREAKING = [
     ("Integer cells: digit grouping with underscores accepted again", "cutplace/fields.py",
      '            if "_" in value:\n                # Python source code can use underscores to group digits, numbers in data can not.\n                raise ValueError("underscore in number")\n            value_as_int = int(value)',
      "            value_as_int = int(value)", ["C02"]),
+    ("import_plugins: loaded modules dropped again", "cutplace/interface.py",
+     "        _imported_plugin_modules.append(loaded_module)\n", "", ["C20"]),
+    ("ODS counts: any Unicode white space as padding", "cutplace/rowio.py",
+     'r"^[ \\t\\r\\n]*[+-]?[0-9]+[ \\t\\r\\n]*$"', 'r"^\\s*[+-]?[0-9]+\\s*$"', ["C15"]),
+    ("xlsx writer: a row without items stores nothing", "cutplace/rowio.py",
+     '        if not items_to_write:\n            # Store an empty cell so the row is part of the sheet even if no further rows follow.\n            self.worksheet.write_string(row_index, 0, "")\n',
+     "", ["C16"]),
+    ("field length: only the overall limits examined", "cutplace/interface.py",
+     "                if (upper_length is not None) and (upper_length < 0):", "                if False and (upper_length is not None) and (upper_length < 0):", ["C09"]),
     ("DecimalRange: only NaN refused", "cutplace/ranges.py",
      "        if not value_as_decimal.is_finite():", "        if value_as_decimal.is_nan():", ["C02"]),
     ("__exit__: end checks replace the pending error", "cutplace/validio.py",
